@@ -28,14 +28,12 @@ Mismatches(r) ==
                 exp |-> RegexReplaceAll(h, ms, r.templates[t], r.names), got |-> o.replace_all[t]] :
                  t \in {x \in DOMAIN r.templates : o.replace_all[x] # RegexReplaceAll(h, ms, r.templates[x], r.names)} }
              \cup
-             (IF o.all_with_identity = h /\ o.with_identity = h THEN {}
-              ELSE {[kind |-> "replace", id |-> r.rid, h |-> hi - 1, tpl |-> <<>>, fn |-> "replace*_with(identity)",
-                     exp |-> h, got |-> o.all_with_identity]})
-             \cup
-             (IF o.all_with_const = ReplaceAllBy(h, ms, [k \in DOMAIN ms |-> ConstText])
-                 /\ o.with_const = ReplaceFirstBy(h, ms, [k \in DOMAIN ms |-> ConstText]) THEN {}
-              ELSE {[kind |-> "replace", id |-> r.rid, h |-> hi - 1, tpl |-> <<>>, fn |-> "replace*_with(constant)",
-                     exp |-> ReplaceAllBy(h, ms, [k \in DOMAIN ms |-> ConstText]), got |-> o.all_with_const]})
+             { [kind |-> "replace", id |-> r.rid, h |-> hi - 1, tpl |-> <<>>, fn |-> c.fn, exp |-> c.exp, got |-> c.got] :
+                 c \in { x \in { [fn |-> "replace_with(identity)", exp |-> h, got |-> o.with_identity],
+                                 [fn |-> "replace_all_with(identity)", exp |-> h, got |-> o.all_with_identity],
+                                 [fn |-> "replace_with(constant)", exp |-> ReplaceFirstBy(h, ms, [k \in DOMAIN ms |-> ConstText]), got |-> o.with_const],
+                                 [fn |-> "replace_all_with(constant)", exp |-> ReplaceAllBy(h, ms, [k \in DOMAIN ms |-> ConstText]), got |-> o.all_with_const] }
+                         : x.exp # x.got } }
         : hi \in DOMAIN r.hays }
 
 RECURSIVE TakeSome(_, _)
